@@ -179,10 +179,13 @@ class Lab:
         logging.disable(logging.CRITICAL)      # oneshot logs every call; nothing here reads logs
         self.root = ctx.tmp("proto/x").parent
         moddir = ctx.tmp("mods/x").parent
-        uniq = f"verif_c32_{os.getpid()}_{ctx.seed}"
-        (moddir / f"{uniq}.py").write_text(MODULE_SRC.replace("NS", uniq))
-        sys.path.insert(0, str(moddir))
-        self.mod = importlib.import_module(uniq)
+        uniq = f"verif_c32_generated_{ctx.seed}"       # (one check run is one process: the name is unique in it)
+        if uniq in sys.modules:
+            self.mod = sys.modules[uniq]
+        else:
+            (moddir / f"{uniq}.py").write_text(MODULE_SRC.replace("NS", uniq))
+            sys.path.insert(0, str(moddir))
+            self.mod = importlib.import_module(uniq)
         self.tasks = [self.mod.elem_a, self.mod.elem_b, self.mod.elem_c]
         self.client = RedunClient()
         self.parser = None
@@ -702,18 +705,25 @@ def run(ctx: Ctx) -> None:
     ctx.note("model_config", f"groups of <= {ctx.pick(3, 4)} jobs, 1 container per job exhaustively (2 for groups of <= 3 "
              "in the thorough tier and in the simulated behaviours), prefixes of <= %d segments over "
              "{'', p, q, array}, <= 2 in-flight remote jobs" % ctx.pick(2, 3))
-    pcases, ncases, rcases = g.recs("CASE"), g.recs("NAME"), g.recs("REUNITE")
+    # (TLC's workers print in any order: sort, so that the seeded choices below are reproducible)
+    canon = lambda recs: sorted(recs, key=lambda r: json.dumps(r, sort_keys=True))  # noqa
+    pcases, ncases, rcases = canon(g.recs("CASE")), canon(g.recs("NAME")), canon(g.recs("REUNITE"))
     ctx.require(len(pcases) > 500 and len(ncases) > 100 and len(rcases) > 1000,
                 f"too few cases from TLC: {len(pcases)} / {len(ncases)} / {len(rcases)}")
 
     st.done("tlc_enumeration")
     # ---- 2. spec -> code: every protocol case, canonical schedule ------------------------------
     seen_cases = set()
+    uniq = []
     for c in pcases:
         key = json.dumps(c["c"], sort_keys=True)
-        if key in seen_cases:        # (the final state of a case is printed once per `ran` vector)
-            continue
-        seen_cases.add(key)
+        if key not in seen_cases:    # (the final state of a case is printed once per `ran` vector)
+            seen_cases.add(key)
+            uniq.append(c)
+    if ctx.quick:                    # quick: every group of <= 2 jobs, a seeded sample of the larger ones
+        big = [c for c in uniq if c["c"]["n"] > 2]
+        uniq = [c for c in uniq if c["c"]["n"] <= 2] + rng.sample(big, min(300, len(big)))
+    for c in uniq:
         case = c["c"]
         grp = lab.new_group(case, make_payloads(rng, case["n"], False), rng.randrange(3))
         rec = run_events(ctx, grp, canonical_events(case["n"]), None, "tlc-exhaustive")
@@ -728,7 +738,7 @@ def run(ctx: Ctx) -> None:
                           {"kind": "proto", "case": case, "events": canonical_events(case["n"]), "source": "tlc"})
         if nontrivial_case(case):
             ctx.distinct(("proto", case))
-    ctx.note("protocol_cases", len(seen_cases))
+    ctx.note("protocol_cases", {"enumerated_by_tlc": len(seen_cases), "run_on_the_real_code": len(uniq)})
     ctx.sample({"source": "tlc-exhaustive case", "case": pcases[len(pcases) // 2]})
 
     st.done("cases_on_real_protocol")
@@ -757,7 +767,13 @@ def run(ctx: Ctx) -> None:
     st.done("simulated_behaviours_replayed")
     # ---- 4. names and reunite ------------------------------------------------------------------
     check_names(ctx, ncases, rng)
-    check_reunite(ctx, rcases, lab, rng, ctx.pick(25, 300))
+    if ctx.quick:                    # quick: every single remote job, a seeded sample of the pairs
+        pairs = [c for c in rcases if len(c["R"]) > 1]
+        rsel = [c for c in rcases if len(c["R"]) == 1] + rng.sample(pairs, min(400, len(pairs)))
+    else:
+        rsel = rcases
+    ctx.note("reunite_cases", {"enumerated_by_tlc": len(rcases), "run_on_the_real_code": len(rsel)})
+    check_reunite(ctx, rsel, lab, rng, ctx.pick(20, 300))
     ctx.sample({"source": "reunite case", "case": rcases[len(rcases) // 3]})
 
     st.done("names_and_reunite")
